@@ -10,6 +10,15 @@ TRUST = ("trusts the Go type checker, go/cfg, go/ssa, the documented semantics o
 
 # property id -> (claimed text, technique, design_ref)   (only built properties appear here)
 CLAIMS = {
+    "C03": (
+        "The re-adding identity itself is a numerical identity between presented figures and is NOT decided. Decided are three structural "
+        "necessary conditions: the rounding-rule dispatch (ApplyRoundingRule rounds to the currency's decimals in both directions under "
+        "'currency' and only raises precision otherwise; the precision-matching helper keeps the accumulator's precision under 'currency'); "
+        "the line sum and each document discount/charge amount are last assigned from ApplyRoundingRule before they feed the sums; the "
+        "presentation rounding covers every amount of a line, its discounts, charges and breakdown rows, of the document totals and of the tax "
+        "summary. Breaking any of the three breaks the identity; holding all three does not prove it.",
+        "static analysis: switch folding of the rounding-rule dispatch, reaching-definition check, field coverage of the rounding walkers",
+        "§4 C03"),
     "C19": (
         "Decides: every rate table folded from the Go sources equals data/regimes/*.json value for value; every regime/addon literal and "
         "catalogue registration has its data file and every data file its definition; the aggregator packages import every defining package "
